@@ -195,6 +195,7 @@ class World:
         self.dir = os.path.join(VERIF, 'contracts', name)
         self.cfg = json.load(open(os.path.join(self.dir, 'world.json')))
         self.features = set(features)
+        self._resolve_registry_files()
         self.vc = None
         for fn in sorted(os.listdir(self.dir)):
             if fn.endswith('.vc'):
@@ -208,6 +209,30 @@ class World:
         self.stubs = []
         self.dropped_hints = {}
         self.lemma_twins = []
+
+    def _resolve_registry_files(self):
+        """`"file": "registry:<crate>/<path>"` names a source file of a dependency: the version is the one pinned in
+        /repo/Cargo.lock, the text is read from the cargo registry (what cargo compiles into the contracts)"""
+        import glob as _glob
+        lock = None
+        self.registry_crates = {}
+        for m in self.cfg['modules']:
+            f = m.get('file', '')
+            if not f.startswith('registry:'):
+                continue
+            crate, rel = f[len('registry:'):].split('/', 1)
+            if lock is None:
+                lock = open(os.path.join(REPO, 'Cargo.lock')).read()
+            vers = re.findall(r'name = "%s"\nversion = "([^"]+)"' % re.escape(crate), lock)
+            if len(vers) != 1:
+                raise Inconclusive(f'lost anchor: {crate} has {len(vers)} versions in Cargo.lock')
+            cargo_home = os.environ.get('CARGO_HOME', os.path.expanduser('~/.cargo'))
+            hits = _glob.glob(os.path.join(cargo_home, 'registry', 'src', '*', f'{crate}-{vers[0]}', rel))
+            if not hits:
+                raise Inconclusive(f'{crate}-{vers[0]}/{rel} is not in the cargo registry')
+            m['file'] = hits[0]
+            m['registry'] = f'{crate}-{vers[0]}/{rel}'
+            self.registry_crates[crate] = vers[0]
 
     # ------------------------------------------------------------------ modules
     def modules(self):
@@ -677,8 +702,8 @@ class World:
         src = open(path, 'rb').read()
         items = self.index[path]['items']
         mod = m['mod']
-        out.w(f'// ---- extracted: {m["file"]} ----\n')
-        out.w(self.cfg.get('prelude', ''))
+        out.w(f'// ---- extracted: {m.get("registry", m["file"])} ----\n')
+        out.w(m.get('prelude', self.cfg.get('prelude', '')))
         for feat in sorted(self.features):
             out.w(self.cfg.get('prelude_' + feat, ''))
         out.w('\n')
@@ -978,6 +1003,20 @@ class World:
         self.used_contracts.add(key)
         stub = 'stub' in c.opts
         vin = next((o.split('=')[1] for o in c.opts if o.startswith('verified-in=')), None)
+        shim_ref = next((o.split('=', 1)[1] for o in c.opts if o.startswith('shim=')), None)
+        if shim_ref:
+            # this function's contract must be the text the shim assumes for it: verifying the real body here
+            # discharges that assumption for every world that uses the shim
+            sfile, spath = shim_ref.split(':', 1)
+            sreq, sens = shim_contract_text(os.path.join(VERIF, 'shim', sfile + '.rs'), spath)
+            norm = lambda t: re.sub(r'\s+', ' ', re.sub(r'//[^\n]*', '', t)).strip().rstrip(',')
+            if sreq is None:
+                raise Inconclusive(f'{c.origin}: shim function {shim_ref} not found')
+            if norm(sreq) != norm(c.requires) or norm(sens) != norm(c.ensures):
+                raise Inconclusive(f'{c.origin}: contract of {cname} differs from the one assumed in shim/{sfile}.rs\n  shim: {norm(sreq)} | {norm(sens)}\n  here: {norm(c.requires)} | {norm(c.ensures)}')
+            self.shim_discharged = getattr(self, 'shim_discharged', [])
+            if not reach:
+                self.shim_discharged.append({'shim': shim_ref, 'function': f'{modpath}::{cname}', 'source': m.get('registry', m.get('file'))})
         if stub and vin:
             # callee verified in another world under the same contract text
             other = World(vin).vc.fns.get(key)
@@ -1345,6 +1384,55 @@ class World:
         return body, res
 
 
+def shim_contract_text(path, fpath):
+    """(requires, ensures) text of `fn <name>` (optionally `Type::name`) in a shim file; the function must be an
+    `external_body` one whose body is `{ unimplemented!() }`"""
+    try:
+        t = open(path).read()
+    except OSError:
+        return None, None
+    segs = fpath.split('::')
+    name = segs[-1]
+    region = t
+    if len(segs) > 1:
+        best = None
+        for mi in re.finditer(r'\bimpl\b[^{;]*\{', t):
+            head = mi.group(0)
+            # inherent impl of the type (no `for`), or `impl Trait for Type`
+            tgt = head.split(' for ')[-1] if ' for ' in head else head
+            if re.search(r'\b' + re.escape(segs[-2]) + r'\b', tgt) and (len(segs) < 3 or re.search(r'\b' + re.escape(segs[-3]) + r'\b', head)):
+                i = mi.end()
+                d = 1
+                while i < len(t) and d:
+                    d += {'{': 1, '}': -1}.get(t[i], 0)
+                    i += 1
+                blk = t[mi.end():i]
+                if re.search(r'\bfn\s+' + re.escape(name) + r'\b', blk):
+                    best = blk
+                    break
+        if best is None:
+            return None, None
+        region = best
+    hits = list(re.finditer(r'\bfn\s+' + re.escape(name) + r'\b', region))
+    if len(hits) != 1:
+        return None, None
+    rest = region[hits[0].end():]
+    end = rest.find('{ unimplemented!() }')
+    if end < 0:
+        return None, None
+    head = rest[:end]
+    mr = re.search(r'(?<![.\w])requires\b', head)
+    me = re.search(r'(?<![.\w])ensures\b(?!\()', head)
+    req = ens = ''
+    if me:
+        ens = head[me.end():]
+        if mr and mr.start() < me.start():
+            req = head[mr.end():me.start()]
+    elif mr:
+        req = head[mr.end():]
+    return req, ens
+
+
 def assemble(world_name, features=(), outdir=None, force_stub=()):
     w = World(world_name, features, force_stub)
     outdir = outdir or os.path.join(os.environ.get('VERIF_WORK', os.path.join(VERIF, 'work')), world_name + ('-' + '-'.join(sorted(features)) if features else ''))
@@ -1359,6 +1447,7 @@ def assemble(world_name, features=(), outdir=None, force_stub=()):
     meta = {'world': world_name, 'features': sorted(features), 'fns': fmap_main, 'reach_fns': w2.fnmap,
             'degraded': w.degraded,
             'counters': counters, 'uncontracted': w.uncontracted, 'stubs': w.stubs, 'lemma_twins': w2.lemma_twins,
+            'shim_discharged': getattr(w, 'shim_discharged', []), 'registry_crates': getattr(w, 'registry_crates', {}),
             'generated': {'type_urls': getattr(w, 'generated_type_urls', None), 'wire_compat': getattr(w, 'generated_wire', None), 'storage_keys': getattr(w, 'generated_storage_keys', None)},
             'unit_sha256': sha(main)}
     json.dump(meta, open(os.path.join(outdir, 'map.json'), 'w'), indent=1)
